@@ -98,6 +98,12 @@ RULE = ('data sets: versions V4/V4.1/V4.2 x 2-5 slices x up to 3 echoes x 3 dyna
         'PARRECHeader.from_fileobj, the proxy scaling arrays with the own-record factors, and (diffusion) '
         'get_bvals_bvecs with the b factors of the volumes.')
 
+# ------------------------------------------------------------------ regen (Generated/C20Funcs.lean)
+
+GEN_PATH = os.path.join(common.VERIF, 'lean', 'NibabelModel', 'Generated', 'C20Funcs.lean')
+GEN_FUNCS = [('vol_numbers', 'vol_numbers')]
+
+
 def _lean_str_list(xs):
     return '[' + ', '.join('"%s"' % x.replace('\\', '\\\\').replace('"', '\\"') for x in xs) + ']'
 
